@@ -417,6 +417,68 @@ theorem packet_layout (ty : Nat) (data : Bytes) (padLen : Nat) (hty : ty < 256)
 
 example : (5 : Nat) < 256 ∧ ([1, 2, 3] : Bytes).length + 1427 - 3 ≤ maxPacketPayloadLength := by decide
 
+/-- the other packet types, with ANY amount of padding: a type-1 packet whose payload is the
+    24-byte seed is adopted by the client (and ignored by the server) however much zero padding
+    follows; every packet of an unknown type is ignored — none of them delivers a byte. -/
+theorem packet_other_types (ty : Nat) (data : Bytes) (padLen : Nat) (hty : ty < 256)
+    (h : data.length + padLen ≤ maxPacketPayloadLength) (pkt : Bytes)
+    (hpkt : makePacket ty data padLen = some pkt) :
+    (ty = packetTypePrngSeed → data.length = seedPacketPayloadLength →
+      parsePacket false pkt = .seed data ∧ parsePacket true pkt = .ignored) ∧
+    (ty ≠ packetTypePayload → ty ≠ packetTypePrngSeed → ∀ isServer, parsePacket isServer pkt = .ignored) ∧
+    (ty ≠ packetTypePayload → ∀ isServer, payloadOf isServer pkt = []) := by
+  obtain ⟨pkt', hmk, hshape, _, _, _, _⟩ := packet_layout ty data padLen hty h
+  rw [hmk] at hpkt
+  have hp := Option.some.inj hpkt
+  subst hp
+  have hdl : data.length < 65536 := by simp only [maxPacketPayloadLength] at h; omega
+  have hbe : be16 (UInt8.ofNat (data.length / 256) :: UInt8.ofNat (data.length % 256) ::
+      (data ++ List.replicate padLen 0)) = data.length := by
+    have := be16_putBe16 data.length hdl (data ++ List.replicate padLen 0)
+    simpa [putBe16] using this
+  have hparse : ∀ isServer, parsePacket isServer pkt' =
+      if ty = packetTypePayload then (if data.length > 0 then .payload data else .ignored)
+      else if ty = packetTypePrngSeed then
+        (if data.length = seedPacketPayloadLength ∧ (!isServer) = true then .seed data else .ignored)
+      else .ignored := by
+    intro isServer
+    rw [hshape]
+    unfold parsePacket
+    have hl : ¬ (UInt8.ofNat ty :: UInt8.ofNat (data.length / 256) :: UInt8.ofNat (data.length % 256) ::
+        (data ++ List.replicate padLen 0)).length < packetOverhead := by simp [packetOverhead]
+    rw [if_neg hl]
+    simp only [List.drop_succ_cons, List.drop_zero]
+    rw [hbe]
+    have : ¬ data.length > (UInt8.ofNat ty :: UInt8.ofNat (data.length / 256) :: UInt8.ofNat (data.length % 256) ::
+        (data ++ List.replicate padLen 0)).length - packetOverhead := by simp [packetOverhead]
+    rw [if_neg this]
+    have hty' : ((UInt8.ofNat ty :: UInt8.ofNat (data.length / 256) :: UInt8.ofNat (data.length % 256) ::
+        (data ++ List.replicate padLen 0)).getD 0 0).toNat = ty := by
+      simp [UInt8.toNat_ofNat', Nat.mod_eq_of_lt hty]
+    simp only [hty', List.take_left']
+  refine ⟨?_, ?_, ?_⟩
+  · intro h1 h2
+    have hne : ¬ packetTypePrngSeed = packetTypePayload := by decide
+    subst h1
+    constructor
+    · rw [hparse, if_neg hne, if_pos rfl, if_pos ⟨h2, rfl⟩]
+    · rw [hparse, if_neg hne, if_pos rfl, if_neg (by simp)]
+  · intro h0 h1 isServer
+    rw [hparse]; simp [h0, h1]
+  · intro h0 isServer
+    unfold payloadOf
+    rw [hparse]
+    simp only [h0, ↓reduceIte]
+    by_cases h1 : ty = packetTypePrngSeed
+    · simp only [h1, ↓reduceIte]
+      by_cases h2 : data.length = seedPacketPayloadLength ∧ (!isServer) = true
+      · rw [if_pos h2]
+      · rw [if_neg h2]
+    · simp only [h1, ↓reduceIte]
+
+example : makePacket 7 [1, 2, 3] 1400 ≠ none := by decide
+
+
 /-- **the seed frame** sent right behind the server response is the 45-byte frame of an
     *unpadded* type-1 packet carrying the 24-byte seed, sealed under the server→client key
     block with frame index 0 (nonce counter 1). -/
